@@ -160,6 +160,8 @@ SplitBy(str, ms, last, k) ==
 SubstBy(str, ms, reps, last, k) ==
     IF ms = <<>> \/ k = 0 THEN Text(str, last, Len(str))
     ELSE Text(str, last, Head(ms).s) \o Head(reps) \o SubstBy(str, Tail(ms), Tail(reps), Head(ms).e, k - 1)
+RECURSIVE DecText(_)
+DecText(n) == IF n < 10 THEN <<48 + n>> ELSE DecText(n \div 10) \o <<48 + (n % 10)>>
 Limit(k) == IF k <= 0 THEN -1 ELSE k           \* count / maxsplit 0 (or negative): no limit
 
 (***************************************************************************)
@@ -207,5 +209,7 @@ Expected(e) ==
       [] e.fn = "searchAllSel"  -> <<"pubs", [i \in 1..Len(e.ms) |-> Published(s, e.ms[i])]>>
       [] e.fn = "rsplit"        -> L(SplitBy(s, e.ms, 0, Limit(e.a)))
       [] e.fn = "rreplace"      -> S(SubstBy(s, e.ms, [i \in 1..Len(e.ms) |-> e.ms[i].exp], 0, Limit(e.a)))
+      \* the replacement lambda is run for every match on that match's own record: here it spells the match's start position
+      [] e.fn = "replaceByStart" -> S(SubstBy(s, e.ms, [i \in 1..Len(e.ms) |-> <<60>> \o DecText(e.ms[i].s) \o <<62>>], 0, Limit(e.a)))
       [] e.fn = "replaceBy"     -> S(SubstBy(s, e.ms, [i \in 1..Len(e.ms) |-> <<60>> \o Text(s, e.ms[i].s, e.ms[i].e) \o <<62>>], 0, Limit(e.a)))
 =============================================================================
